@@ -67,7 +67,7 @@ def build(config, root=None, force=False, quiet=True):
             os.remove(w)
     # scratch copies (mutant self-test) share one target dir per configuration: dependencies are reused, only the
     # workspace crates are rebuilt
-    tgt = os.path.join(CACHE, "target", config.replace("/", "-") + ("" if root in ("/repo", os.path.join(VERIF, "fixtures")) else "-mut"))
+    tgt = os.path.join(CACHE, "target", config.replace("/", "-") + ("" if root in ("/repo", os.path.join(VERIF, "fixtures")) else "-mut" + os.environ.get("VERIF_TARGET_TAG", "")))
     # cargo's freshness cache would skip the wrapper: drop the fingerprints of the workspace members
     for prof in ("debug",):
         fp = os.path.join(tgt, prof, ".fingerprint")
